@@ -1028,6 +1028,9 @@ class Router:
             )
 
         meth = method_call.method_spec()
+        if overriding_name is not None:
+            # the contract must describe the method under the name the program dispatches on
+            meth.name = overriding_name
         if description is not None:
             meth.desc = description
         self.methods.append(meth)
